@@ -132,6 +132,7 @@ class Ctx:
         self.step_out = {}  # sid -> materialised step
         self.saved_states = {}
         self.culprits = []
+        self.dropped_ids = {}
         self.import_epoch = []
         self.results_by_epoch = {}
         self.held = []  # results the caller still holds: (label, array, digest) -- caller-owned once returned
@@ -363,9 +364,7 @@ class Ctx:
 
     def ckey_arg(self, v):
         if isinstance(v, dict) and "slot" in v and v["slot"] in self.pool:
-            rec = self.pool[v["slot"]].recipe
-            if rec.get("k") != "result" and not _has_result_ref(rec, self.pool):
-                return {"op": _expand(rec, self.pool)}
+            return {"op": _expand({"k": "ref", "slot": v["slot"]}, self.pool)}
         return v
 
     def ckey(self, step):
@@ -377,10 +376,7 @@ class Ctx:
                 if "algobj" in v and v["algobj"] in self.alg_specs:
                     return {"alg": self.alg_specs[v["algobj"]]}  # the object's construction (class + arguments), not its name
                 if "slot" in v and v["slot"] in self.pool:
-                    rec = self.pool[v["slot"]].recipe
-                    if rec.get("k") != "result" and not _has_result_ref(rec, self.pool):
-                        return {"op": _expand(rec, self.pool)}
-                    return v
+                    return {"op": _expand({"k": "ref", "slot": v["slot"]}, self.pool)}
                 return {k: canon_arg(x) for k, x in v.items()}
             return v
         return canon({"fn": step["fn"], "args": {k: canon_arg(v) for k, v in step.get("args", {}).items()}})
@@ -713,6 +709,22 @@ class Ctx:
         if self.prop == "C17":  # a user-only step runs no cola code: nothing for the C18 observer to look at
             self.check_invariants(sid, "user step %d" % sid)
 
+    def op_drop(self, step, out_step):
+        """The user lets go of an operator (a temporary goes out of scope): the object is really freed, so that a later
+        object may reuse its address (id())."""
+        import gc
+        slot = step["slot"]
+        if slot in self.pool:
+            self.dropped_ids[slot] = id(self.pool[slot].op)
+        for name in [k for k in self.pool if k == slot or k.startswith("~h")]:
+            del self.pool[name]
+        self.flat_checked.discard(slot)
+        self._pending_res = self._held_res = None
+        gc.collect()
+        self.stats["operators_dropped"] += 1
+        self.events.append(("drop", step["id"], slot))
+        self.sched_sig.append("drop")
+
     def op_mkalg(self, step, out_step):
         """The user builds an algorithm object once and reuses it across calls."""
         from .calls import _alg
@@ -758,6 +770,19 @@ class Ctx:
 
     def _do_make(self, step, record):
         op = self.builder.op(step["recipe"])
+        target = self.dropped_ids.get(step.get("reuse_id_of")) if record else None
+        if target is not None and rm.is_op(op) and id(op) != target:
+            # address reuse after free, made deterministic: keep building the same operator (the misses stay alive so that
+            # their addresses are not handed out again) until the allocator returns the address of the dropped operator
+            misses = [op]
+            for _ in range(96):
+                op = self.builder.op(step["recipe"])
+                if id(op) == target:
+                    break
+                misses.append(op)
+            del misses
+        if target is not None and rm.is_op(op) and id(op) == target:
+            self.stats["address_reused_after_drop"] += 1
         if not rm.is_op(op):
             return op
         if record:
@@ -797,6 +822,7 @@ class Ctx:
         self._pending_res = None
         self._held_res = None
         self._next_product_cap = self.hutch_cap(step, args)
+        self._cur_ckey = key
         outcome = self._guarded(step, fault, body, store=step.get("out"))
         cur_used = self._last_used
         after = "call step %d (%s, outcome %s)" % (sid, step["fn"], outcome[0])
@@ -1096,7 +1122,8 @@ class Ctx:
                 else:
                     outcome = ["ok", self.digest_of(res)]
                 if store and rm.is_op(_first_op(res)) and store not in self.pool:
-                    self.pool[store] = Entry(_first_op(res), None, None, False, {"k": "result", "of": step["fn"]}, sid)
+                    self.pool[store] = Entry(_first_op(res), None, None, False,
+                                             {"k": "result", "of": step["fn"], "call": getattr(self, "_cur_ckey", store)}, sid)
                 elif self.prop == "C18" and step["op"] == "call":
                     # the caller keeps every operator a call returned (Q/T of lanczos, factors, eigenvector operators):
                     # they join the pool under anonymous slots (the most recent 6) and are watched like any other value
@@ -1105,7 +1132,8 @@ class Ctx:
                         if any(e.op is o for e in self.pool.values()):
                             continue
                         name = "~h%d_%d" % (sid, j)
-                        self.pool[name] = Entry(o, None, None, False, {"k": "result", "of": step["fn"]}, sid)
+                        self.pool[name] = Entry(o, None, None, False, {"k": "result", "of": step["fn"], "which": j,
+                                                                        "call": getattr(self, "_cur_ckey", name)}, sid)
                         self.stats["result_operators_held"] += 1
                     anon = [nm for nm in self.pool if nm.startswith("~h")]
                     for nm in anon[:-6]:
@@ -1220,8 +1248,11 @@ def _expand(r, pool, depth=0):
     if depth > 12:
         return r
     if isinstance(r, dict):
-        if r.get("k") == "ref" and r.get("slot") in pool and pool[r["slot"]].recipe.get("k") != "result":
-            return _expand(pool[r["slot"]].recipe, pool, depth + 1)
+        if r.get("k") == "ref" and r.get("slot") in pool:
+            rec = pool[r["slot"]].recipe
+            if rec.get("k") == "result":  # a value manufactured by a call: identified by the call that produced it
+                return {"k": "resultref", "call": rec.get("call", r["slot"]), "which": rec.get("which", 0)}
+            return _expand(rec, pool, depth + 1)
         return {k: _expand(v, pool, depth + 1) for k, v in r.items()}
     if isinstance(r, list):
         return [_expand(v, pool, depth + 1) for v in r]
